@@ -4,7 +4,7 @@
    a message never handed to a connection before carries DUP = 0, QoS 0 never carries DUP - for every
    protocol-conforming history. *)
 From PahoV Require Import Base.Prelude Codec.Mid Codec.MidProofs Session2.Model Session2.Legacy Session2.Check
-  Session2.LLemmas Session2.LInv Session2.Statements.
+  Session2.LLemmas Session2.LInvS Session2.Statements.
 From Coq Require Import Sorting.Sorted.
 
 (* ---------------------------------------------------------------- sets of tags *)
